@@ -152,6 +152,11 @@ Proof.
         destruct (code_class c =? 2) eqn:H2.
         -- (* accepted *)
            assert (Hx : is_2xx c = true) by exact H2.
+           assert (Hval : meth_eqb (q_meth q) MSetup && transport_invalid (q_transport q) = false).
+           { destruct (meth_eqb (q_meth q) MSetup) eqn:E; [|reflexivity]. cbn [andb].
+             apply (step_setup_valid _ _ _ _ _ _ Hc Hs); [|exact Hx].
+             destruct (q_meth q); try discriminate E; reflexivity. }
+           cbn [andb]. rewrite Hval.
            assert (Hmode : s_mode s' = s_mode s \/
                      (q_meth q = MDescribe /\ s_mode s' = MdPlay) \/
                      (q_meth q = MAnnounce /\ s_mode s' = MdRecord)).
@@ -413,6 +418,7 @@ Proof.
     destruct (negb (legal _ _)).
     + destruct (_ && _); [|discriminate]. inversion H; subst. apply MI_app. assumption.
     + destruct (_ && _); [discriminate|].
+      destruct (_ && _ && _); [discriminate|].
       destruct (code_class (rs_code r) =? 2) eqn:H2.
       * apply Z.eqb_eq in H2. rewrite H2.
         destruct (mon_accept m (q_meth q)) as [m2|] eqn:Ha; [|discriminate].
